@@ -2,6 +2,7 @@ import Ach.Props.Layouts
 import Ach.Proofs.Layout
 import Ach.Proofs.Compile
 import Ach.Proofs.Writer
+import Ach.Proofs.IO
 /-!
 # C02 — every successfully written file is physically well-formed NACHA  (record level)
 
@@ -17,6 +18,11 @@ the grammar FH (BH (ED AD*)* BC)* FC 9* and parses back to the file's tree), `cr
 field values are within their widths (`RecFix`, implied by `RecOK`) renders to
 exactly 94 characters.  The per-record obligations `Props.Layouts.layout_X`
 say that today's source compiles for each of the 26 record types.
+
+Line endings, on the byte-level Writer model of C16 (`Ach.Model.IO`, tied by the `io` stream): `written_lines_terminated`
+— what a successful `Write` leaves in the sink is exactly every non-empty record followed by the configured line ending,
+then the all-9 filler records each followed by it (`C16.write_ok_complete` says the sink holds `render` whenever `Write`
+returns nil, for every buffer size and failure plan).
 -/
 namespace Ach.Props.C02
 open Ach Ach.Gen
@@ -82,5 +88,25 @@ theorem create_counts_physical (f : WFile) :
 
 /-- non-vacuity: a file with two batches and 2+1 entries carrying 1, 0 and 2 addenda -/
 example : (Ach.Writer.write ⟨[⟨[⟨1⟩, ⟨0⟩]⟩, ⟨[⟨2⟩]⟩]⟩).length = 20 := by decide
+
+/-- every record the Writer emits, and every filler record, is followed by the configured line ending and nothing else
+separates them -/
+theorem written_lines_terminated {α : Type} (cfg : Ach.IO.Cfg α) (f : Ach.IO.WFile α) :
+    Ach.IO.render cfg f =
+      ((f.lines.filter (fun l => !l.isEmpty)) ++
+        List.replicate (Ach.IO.padCount (Ach.IO.countLines f.lines)) cfg.padLine).flatMap (· ++ cfg.ending) := by
+  unfold Ach.IO.render Ach.IO.emitLines Ach.IO.padding
+  rw [List.flatMap_append]
+  congr 1
+  · generalize f.lines = ls
+    induction ls with
+    | nil => rfl
+    | cons l ls ih =>
+      simp only [List.flatMap_cons, List.filter_cons, ih, Ach.IO.emitLine]
+      cases h : l.isEmpty <;> simp [h]
+  · generalize Ach.IO.padCount (Ach.IO.countLines f.lines) = n
+    induction n with
+    | zero => rfl
+    | succ n ih => simp [List.replicate_succ, ih]
 
 end Ach.Props.C02
